@@ -50,6 +50,8 @@ void CommitHistory::Push(const Composition& composition, const string& input) {
     } else {
       // no translation for the segment
       Push({"raw", input.substr(seg.start, seg.end - seg.start)});
+      // the record `last` points to may have been rotated out by now
+      last = NULL;
       end = seg.end;
     }
   }
